@@ -12,7 +12,7 @@ decided separately.
 import ast
 
 from .. import fresh, guards
-from ..astutil import Env, chain, src, walk, strip_not, const, stmts, is_none_test, reaching_value
+from ..astutil import Env, chain, src, walk, strip_not, const, stmts, is_none_test, reaching_value, contains_name, flatten_bool
 from ..model import Unrecognised
 from .c13 import Ctx, name_is, FIELDS, AXIS, t_inplace_op
 
@@ -342,6 +342,31 @@ def take_rules(model, R):
             elif src(s.target) == src(a1):
                 R.check(name_is(s.value, p_prop), 'DERIVED', func, s, 'take: property axis restricted by the properties argument',
                         f'{src(a1)} &= {p_prop}', src(s))
+    # the selection is applied whenever it is given (``is not None``), also when it is empty
+    from ..astutil import path_condition
+    for param in (p_obj, p_prop):
+        uses = []
+        for s in stmts(func.body):
+            if isinstance(s, ast.AugAssign) and name_is(s.value, param):
+                uses.append((s, None))
+            elif isinstance(s, ast.Assign) and isinstance(s.value, ast.Call) and len(s.value.args) == 1 and name_is(s.value.args[0], param):
+                uses.append((s, None))
+            elif isinstance(s, ast.Assign) and isinstance(s.value, ast.IfExp) and contains_name(s.value.body, param):
+                uses.append((s, s.value.test))
+        for s, inline in uses:
+            conds = path_condition(func.body, s)
+            if conds is None:
+                continue
+            tests = [(t, pol) for t, pol in conds] + ([(inline, True)] if inline is not None else [])
+            truthy = [t for t, pol in tests for part in (flatten_bool(t, ast.And) if pol else [t])
+                      if (pol and name_is(part, param)) or (not pol and isinstance(part, ast.UnaryOp) and isinstance(part.op, ast.Not) and name_is(part.operand, param))]
+            nonnull = [t for t, pol in tests if is_none_test(t) and is_none_test(t)[0] == param]
+            if truthy and not nonnull:
+                R.bad('GUARD', func, truthy[0], f'take: the {param} selection is applied whenever it is given', f'if {param} is not None',
+                      f'if {src(truthy[0])} (truth value): {src(s)[:60]}',
+                      extra={'consequence': f'take({param}=[]) keeps the whole axis instead of returning the empty selection'})
+            else:
+                R.ok('GUARD', func, s, f'take: the {param} selection is applied whenever it is given', src(s)[:80])
     _cells_product(C, cells, calls[0], 'take', want_in=True,
                    axes=(lambda n: src(n) == src(a0), lambda n: src(n) == src(a1)), axes_text=(src(a0), src(a1)))
 
